@@ -439,6 +439,7 @@ def reference(world):
     order = []
     broken_imports = {}   # name a failure is recorded under -> modules its (parsed) IMPORTS clause names
     asked_upto = {}       # name -> number of sources consulted for it so far
+    module_failed = set() # modules whose text was found and whose symbol table could not be built (as opposed to names no source served)
     while todo or broken_imports:
         if not todo:
             # C07: 'every module reachable through the IMPORTS of successfully PARSED modules' - a module whose symbol table
@@ -466,25 +467,26 @@ def reference(world):
         accepted = False
         answered = False           # a source answered the name with a file that holds modules
         source_failed = False      # a source failed on the NAME m (reader error, text that does not parse)
+        name_failure = None        # ... and the statuses that failure allows for the name
         for s, a in enumerate(answers):
             if s < asked_upto.get(m, 0):
                 continue           # consulted when m was looked up in its other capacity: not asked again
             asked_upto[m] = s + 1
             if a == 'error':
                 # a failure of this source; the later ones are still asked
-                failed[m] = set(['failed', 'missing'])
+                name_failure = set(['failed', 'missing'])
                 source_failed = True
                 continue
             if a != 'ok':
                 continue
             ents = file_entries(world, s, m)
             if ents is None:
-                failed[m] = set(['failed'])      # does not parse: a later source may do better
+                name_failure = set(['failed'])      # does not parse: a later source may do better
                 source_failed = True
                 continue
             if not ents:
-                if m not in failed:
-                    failed[m] = set(['missing', 'failed'])   # a file without any module: as good as not found
+                if m not in failed and name_failure is None:
+                    name_failure = set(['missing', 'failed'])   # a file without any module: as good as not found
                     source_failed = True
                 continue
             broken_here = set()
@@ -495,12 +497,14 @@ def reference(world):
                 if not ok:
                     # the failure belongs to the MODULE, whatever name its file was found under
                     failed[c] = set(['failed'])
+                    module_failed.add(c)
                     broken_here.add(c)
                     base = c if c in users else c[:-4] if c.endswith('REAL') and c[:-4] in users else None
                     if base:
                         broken_imports[c] = list(imports.get(base, []))
                     if c == m:
-                        source_failed = False
+                        source_failed = False    # the module's own failure takes the place of an earlier source's
+                        name_failure = None
                     if req:
                         requested_canon.add(c)   # part of a requested file, like its sound modules
                     continue
@@ -509,6 +513,7 @@ def reference(world):
                 kind_of[c] = text_kind(world, s, m)
                 order.append(c)
                 failed.pop(c, None)   # could not be had before (asked for by name, or a broken copy precedes this one)
+                module_failed.discard(c)
                 broken_here.discard(c)
                 broken_imports.pop(c, None)
                 if req:
@@ -524,12 +529,19 @@ def reference(world):
             if not req and m not in parsed:
                 # m is known from an IMPORTS clause, so it names a MODULE; this file holds modules called differently
                 continue
-            if source_failed:
-                failed.pop(m, None)   # an earlier source failed on this name, this one answers it
-            accepted = True
+            accepted = True      # (a failure of an earlier source on this name is forgotten: this one answers it)
             break
-        if not accepted and m not in failed and m not in parsed and not (req and answered):
-            # (a file name that was answered: the modules found under it carry the statuses)
+        if accepted or m in parsed or req and answered:
+            # answered; or a file name whose module is known from another file, or that was answered by a file of broken modules:
+            # the modules carry the statuses - a failure of a SOURCE on the name is moot.  (A failure of the MODULE m, found
+            # in an earlier source, is not: it stands whatever later sources do.)
+            if m not in module_failed:
+                failed.pop(m, None)
+        elif m in module_failed:
+            pass                 # the module's failure stands
+        elif name_failure is not None:
+            failed[m] = name_failure
+        elif m not in failed:
             failed[m] = set(['missing'])
 
     ref = {'allowed': {}, 'writes': {}, 'payload': {}, 'gen': set(), 'nogen': set()}
@@ -724,8 +736,24 @@ def judge(world, obs, sigbase, step_budget_factor=10):
             if not isinstance(err, error.PySmiError):
                 v('failed-without-error', '%s -> %r' % (k, err))
             elif k in obs['injected'] and not any(err is e for e in obs['injected'][k]) and \
-                    world.get('text', {}).get(k, 'healthy') == 'healthy':
+                    not any(e[0] == 'codegen' and e[1] == k for e in log) and \
+                    all(kind == 'healthy' for key, kind in world.get('text', {}).items() if key == k or key[-1:].isdigit()):
+                # (a module that reached code generation may fail there for reasons of its own: a used import without symbol table)
+                # (a per-source text may hold other modules too, so any unsound one can be the origin of a real error)
                 v('failed-carries-another-error', '%s: %r, injected %r' % (k, err, obs['injected'][k]))
+
+    # --- every requested name is accounted for, whatever the reference model says: by a status of its own, or by the statuses of
+    #     the modules that a file of that name holds
+    nsrc_ = world.get('nsrc', 1)
+    for m in world.get('req', []):
+        if m in res:
+            continue
+        held = set()
+        for s in range(nsrc_):
+            if world.get('src', {}).get('%s%d' % (m, s), 'ok' if s == 0 else 'notfound') == 'ok' and m in USER[:world['n']]:
+                held |= set(c for c, ok, var in (file_entries(world, s, m) or []))
+        if not held & set(res):
+            v('requested-name-without-any-status', '%s; result keys %r' % (m, sorted(res)))
 
     # --- agreement with the reference model
     missing_keys = [k for k in ref['allowed'] if k not in res]
